@@ -5,6 +5,7 @@ package c13
 
 import (
 	"fmt"
+	"os"
 	"time"
 
 	"github.com/Oneledger/protocol/consensus"
@@ -34,6 +35,7 @@ type wspec struct {
 	// records itself at block 1 (calendar years from the time of block 1).
 	YearClose []int64
 	Quick     bool // part of the quick tier
+	Unstake   bool // the alphabet contains the power-changing operation
 	Note      string
 }
 
@@ -60,9 +62,9 @@ func worlds() []wspec {
 			Quick: true, Note: "calendar years; rewards pool of 3 OLT, below the burn-out rate"},
 		// cycle = 34 s: year 1 in blocks 1-4, year 2 in blocks 5-8, burn-out from block 9
 		{Name: "short-eq4-c2i2", Powers: eq4, Cycle: 2, Interval: 2, EstSecs: 34, Window: 40, Supplies: []int64{100, 100}, Burnout: 7, Pool: 40,
-			YearClose: []int64{96, 164}, Note: "cycle == interval; year 1 closes at +96 s, year 2 at +164 s; rewards pool of 40 OLT"},
+			YearClose: []int64{96, 164}, Unstake: true, Note: "cycle == interval; year 1 closes at +96 s, year 2 at +164 s; rewards pool of 40 OLT; V2 may lower its power"},
 		{Name: "long-skew-c3i3", Powers: skew, Cycle: 3, Interval: 3, EstSecs: 51, Window: 3600, Supplies: []int64{40000000, 20000000}, Burnout: 5, Pool: 30,
-			Note: "calendar years; cycle == interval; rewards pool of 30 OLT"},
+			Unstake: true, Note: "calendar years; cycle == interval; rewards pool of 30 OLT; V2 may drop out of the validator set"},
 	}
 }
 
@@ -126,6 +128,7 @@ type event struct {
 	Dt      time.Duration // 0 = 17 s
 	Op      string        // transaction in the block ("" = none)
 	Restart bool          // the node is crash-restarted right before this block
+	NA      bool          // not part of this configuration's alphabet
 }
 
 const (
@@ -134,65 +137,59 @@ const (
 	opUndelegBig    = "undelegate-big"    // Users[1] takes the 500 000 000 OLT out again
 	opDonateDeleg   = "donate-delegpool"  // Users[2] sends 4000 OLT to the delegation pool (nobody's delegation: dilutes)
 	opDonateRewards = "donate-rewardpool" // Users[2] sends 9 OLT to the rewards pool
+	opUnstake       = "unstake-V2"        // Vals[1] unstakes 450 000 OLT: lower power (equal worlds) / below the minimum, out of the set (2:1:7 worlds)
 	opWOne          = "withdraw-1"        // Vals[0] withdraws 1 OLT of its matured rewards
 	opWAll          = "withdraw-all"      // Vals[0] withdraws floor(matured, not yet withdrawn) whole OLT (the largest expressible amount <= matured)
 	opWOver         = "withdraw-over"     // Vals[0] withdraws one OLT more than that (> matured: must fail)
 )
 
-// events is the per-block alphabet of a configuration (index -> event), identical in master and
-// workers. Index 0 is the default block (everybody signs, 17 s, no transaction, no restart).
+// events is the per-block alphabet (index -> event), identical in master and workers and laid out
+// identically for every configuration, so that an index names the same event everywhere; events that
+// make no sense in a configuration are marked NA there (never executed). Index 0 is the default block
+// (everybody signs, 17 s, no transaction, no restart).
 func (s *wspec) events() []event {
-	ev := []event{{Name: "default"}}
-	if len(s.Powers) == 4 {
-		// equal powers: any single validator may be absent (3/4 > 2/3), never two. V1 is the validator
-		// that withdraws; V2 stands for the other three (they differ only in when they propose, and every
-		// validator is proposer and non-proposer at some height of a history)
-		ev = append(ev, event{Name: "absent-V1", Absent: []int{0}}, event{Name: "absent-V2", Absent: []int{1}})
-	} else {
-		// 2:1:7 - the two small ones may be absent, alone or together (7/10 > 2/3); the big one never
-		ev = append(ev, event{Name: "absent-V1", Absent: []int{0}}, event{Name: "absent-V2", Absent: []int{1}}, event{Name: "absent-V1+V2", Absent: []int{0, 1}})
+	eq := len(s.Powers) == 4
+	short := s.YearClose != nil
+	fast := time.Second
+	if os.Getenv("VERIF_C13_SUBSECOND") != "" {
+		// probe outside the stated assumption (TimeIotaMs = 1000): -hist replays only, see FINDINGS.md
+		fast = time.Millisecond
 	}
-	ev = append(ev, event{Name: "dt-1s", Dt: time.Second})
-	if s.YearClose != nil {
-		// years of a few minutes: a slow block changes the forecast, 40 days end the schedule
-		ev = append(ev, event{Name: "dt-60s", Dt: 60 * time.Second}, event{Name: "dt-40d", Dt: 40 * day})
-	} else {
-		// calendar years: 40 d stays inside year 1, 400 d lands in year 2, 550 d lands in year 2 with a
-		// cycle so slow that no further block is forecast to fit, twice 400 d ends the schedule
-		ev = append(ev, event{Name: "dt-40d", Dt: 40 * day}, event{Name: "dt-400d", Dt: 400 * day}, event{Name: "dt-550d", Dt: 550 * day})
-	}
-	ev = append(ev,
-		event{Name: opDelegSmall, Op: opDelegSmall},
-		event{Name: opDelegBig, Op: opDelegBig},
-		event{Name: opUndelegBig, Op: opUndelegBig},
-		event{Name: opDonateDeleg, Op: opDonateDeleg},
-	)
-	if s.Pool < 1000 {
+	return []event{
+		{Name: "default"},
+		// equal powers: any single validator may be absent (3/4 > 2/3), never two. V1 is the validator that
+		// withdraws; V2 stands for the other three (they differ only in when they propose, and every
+		// validator is proposer and non-proposer at some height of a history).
+		// 2:1:7 - the two small ones may be absent, alone or together (7/10 > 2/3); the big one never.
+		{Name: "absent-V1", Absent: []int{0}},
+		{Name: "absent-V2", Absent: []int{1}},
+		{Name: "absent-V1+V2", Absent: []int{0, 1}, NA: eq},
+		{Name: "dt-1s", Dt: fast},
+		// years of a few minutes: a slow block changes the forecast, 40 days end the schedule.
+		// calendar years: 40 d stays inside year 1, 400 d lands in year 2, 550 d lands in year 2 after a
+		// cycle so slow that no further block is forecast to fit, twice 400 d ends the schedule.
+		{Name: "dt-60s", Dt: 60 * time.Second, NA: !short},
+		{Name: "dt-40d", Dt: 40 * day},
+		{Name: "dt-400d", Dt: 400 * day, NA: short},
+		{Name: "dt-550d", Dt: 550 * day, NA: short},
+		{Name: opDelegSmall, Op: opDelegSmall},
+		{Name: opDelegBig, Op: opDelegBig},
+		{Name: opUndelegBig, Op: opUndelegBig},
+		{Name: opDonateDeleg, Op: opDonateDeleg},
 		// only where the pool is small enough for a donation to change the regime
-		ev = append(ev, event{Name: opDonateRewards, Op: opDonateRewards})
+		{Name: opDonateRewards, Op: opDonateRewards, NA: s.Pool >= 1000},
+		{Name: opUnstake, Op: opUnstake, NA: !s.Unstake},
+		{Name: opWOne, Op: opWOne},
+		{Name: opWAll, Op: opWAll},
+		{Name: opWOver, Op: opWOver},
+		{Name: "restart", Restart: true},
 	}
-	ev = append(ev,
-		event{Name: opWOne, Op: opWOne},
-		event{Name: opWAll, Op: opWAll},
-		event{Name: opWOver, Op: opWOver},
-		event{Name: "restart", Restart: true},
-	)
-	return ev
 }
 
 func (e event) bigDt() bool { return e.Dt >= day }
 
-// numEvents is the size of the largest per-block alphabet (indexes beyond a configuration's own
-// alphabet are padding and never executed).
-func numEvents() int {
-	n := 0
-	for _, w := range worlds() {
-		if k := len(w.events()); k > n {
-			n = k
-		}
-	}
-	return n
-}
+// numEvents is the size of the per-block alphabet (the same layout for every configuration).
+func numEvents() int { w := worlds()[0]; return len(w.events()) }
 
 // buildTx builds the transaction of an operation. pos is the position in the history (distinct memos:
 // byte-identical transactions are rejected as replays); floorMaturedOLT is the whole-OLT part of what
@@ -210,6 +207,8 @@ func buildTx(w *harness.World, op string, pos int, floorMaturedOLT int64) *harne
 		return stk.SendPool(w.Users[2], "DelegationPool", stk.OLT(4000), memo)
 	case opDonateRewards:
 		return stk.SendPool(w.Users[2], "RewardsPool", stk.OLT(9), memo)
+	case opUnstake:
+		return stk.Unstake(w.Vals[1].Val, w.Vals[1].Stake, stk.WholeOLT(450000), memo)
 	case opWOne:
 		return stk.WithdrawReward(w.Vals[0].Val.Addr, w.Vals[0].Stake, stk.WholeOLT(1), memo)
 	case opWAll:
